@@ -13,17 +13,21 @@ import (
 	"sort"
 	"strings"
 
+	"github.com/formancehq/go-libs/v5/pkg/types/metadata"
 	ledger "github.com/formancehq/ledger/internal"
 	"github.com/formancehq/ledger/internal/api/bulking"
 	ledgercontroller "github.com/formancehq/ledger/internal/controller/ledger"
+	ledgerstore "github.com/formancehq/ledger/internal/storage/ledger"
 	"github.com/formancehq/ledger/internal/verifh/pgsem"
 )
 
 // importx (TIE-D, properties C11 and C12): a random source history on ledger l1 (A), the real Export to bytes (what
 // v2.exportLogs does), then a script of actions on a fresh ledger l2 (B) of the same bucket and feature set, all through
 // the controller the real system controller hands out (state tracker facade, advisory locks, sequence resync):
-//   (import drop take now)            the real Import of export(A)[drop : drop+take] (decoded as v2.importLogs does)
-//   (write single|bulk|atomic now ops) ops one by one / one non-atomic bulk / one ATOMIC bulk through the real Bulker
+//
+//	(import drop take now)            the real Import of export(A)[drop : drop+take] (decoded as v2.importLogs does)
+//	(write single|bulk|atomic now ops) ops one by one / one non-atomic bulk / one ATOMIC bulk through the real Bulker
+//
 // The implementation line = outcome of every action (after an accepted import: which observable classes of B equal
 // those of A) + the final state of B; the model line is the same computed by Ledger/Import.v.
 // Monitors (independent of the model): C11 = a full import into the pristine copy succeeds, every observable class is
@@ -32,7 +36,9 @@ import (
 func init() { commands["importx"] = cmdImportx }
 
 type impAction struct {
-	Kind       string // import | write
+	WithOrig   bool   // import_shift: the stream is export ++ shifted export (else the shifted export only)
+	DLog, DTx  int64  // import_shift: offsets added to the log ids / transaction ids of the exported logs
+	Kind       string // import | import_shift | write
 	Path       string // single | bulk | atomic
 	Drop, Take int    // import: slice of the export; Take < 0: to the end
 	Now        int64
@@ -46,10 +52,17 @@ type impCase struct {
 }
 
 func (a impAction) sx() string {
+	if a.Kind == "import_shift" {
+		return L("import_shift", b01(a.WithOrig), fmt.Sprint(a.Now), fmt.Sprint(a.DLog), fmt.Sprint(a.DTx))
+	}
 	if a.Kind == "import" {
 		return L("import", fmt.Sprint(a.Drop), fmt.Sprint(a.Take), fmt.Sprint(a.Now))
 	}
-	return L("write", a.Path, fmt.Sprint(a.Now), opsSx(a.Ops))
+	path := a.Path
+	if path == "atomic" && !facadeBeginsTX() {
+		path = "atomic_unrepaired"
+	}
+	return L("write", path, fmt.Sprint(a.Now), opsSx(a.Ops))
 }
 
 func (c impCase) sx() string {
@@ -74,10 +87,12 @@ func parseImpCase(line string) impCase {
 	feat, _ := parseHistCase(L("hist", sxString(sx.List[1]), L()))
 	c := impCase{Feat: feat, Ops: ops(sx.List[2])}
 	for _, a := range sx.List[3].List {
-		if a.List[0].Atom == "import" {
+		if a.List[0].Atom == "import_shift" {
+			c.Script = append(c.Script, impAction{Kind: "import_shift", WithOrig: a.List[1].Atom == "1", Now: atoi(a.List[2].Atom), DLog: atoi(a.List[3].Atom), DTx: atoi(a.List[4].Atom)})
+		} else if a.List[0].Atom == "import" {
 			c.Script = append(c.Script, impAction{Kind: "import", Drop: int(atoi(a.List[1].Atom)), Take: int(atoi(a.List[2].Atom)), Now: atoi(a.List[3].Atom)})
 		} else {
-			c.Script = append(c.Script, impAction{Kind: "write", Path: a.List[1].Atom, Now: atoi(a.List[2].Atom), Ops: ops(a.List[3])})
+			c.Script = append(c.Script, impAction{Kind: "write", Path: strings.TrimSuffix(a.List[1].Atom, "_unrepaired"), Now: atoi(a.List[2].Atom), Ops: ops(a.List[3])})
 		}
 	}
 	return c
@@ -90,6 +105,36 @@ type impStack struct {
 	feat Feat
 	a, b ledgercontroller.Controller
 	dead bool
+}
+
+// facadeBeginsTX: does the state tracker facade of the tree under test run the handleState protocol in BeginTX
+// (fixes/01-facade-begintx)?  Probed once on a scratch stack by looking at the SQL a BeginTX on an initializing ledger emits.
+// The answer selects the atomic-bulk model the case is compared with ("atomic" / "atomic_unrepaired" in the case), so a tree
+// without the override still corresponds to a model and the monitors report the failing input.
+var facadeBeginsTXProbe struct {
+	done, yes bool
+}
+
+func facadeBeginsTX() bool {
+	if facadeBeginsTXProbe.done {
+		return facadeBeginsTXProbe.yes
+	}
+	st := NewStack(StackOpts{})
+	ctx := context.Background()
+	must(st.Sys.CreateLedger(ctx, "probe", ledger.Configuration{Bucket: "_default", Features: allOn.set()}))
+	ctrl, err := st.Sys.GetLedgerController(ctx, "probe")
+	must(err)
+	st.LogSQL = true
+	txCtrl, _, err := ctrl.BeginTX(ctx, nil)
+	must(err)
+	_ = txCtrl.Rollback(ctx)
+	for _, q := range st.SQLLog {
+		if strings.Contains(q, "pg_advisory_xact_lock") {
+			facadeBeginsTXProbe.yes = true
+		}
+	}
+	facadeBeginsTXProbe.done = true
+	return facadeBeginsTXProbe.yes
 }
 
 func newImpStack(f Feat) *impStack {
@@ -133,6 +178,41 @@ func decodeLogs(data []byte) ([]ledger.Log, error) {
 		}
 		out = append(out, l)
 	}
+}
+
+// shiftLogs decodes the export again (fresh values) and adds dl to every log id and dt to every transaction id
+// (created / reverted / reverting transactions, transaction targets of metadata logs)
+func shiftLogs(data []byte, dl, dt int64) []ledger.Log {
+	logs, err := decodeLogs(data)
+	must(err)
+	sh := func(p *uint64) *uint64 {
+		v := uint64(int64(*p) + dt)
+		return &v
+	}
+	for i := range logs {
+		id := uint64(int64(*logs[i].ID) + dl)
+		logs[i].ID = &id
+		switch p := logs[i].Data.(type) {
+		case ledger.CreatedTransaction:
+			p.Transaction.ID = sh(p.Transaction.ID)
+			logs[i].Data = p
+		case ledger.RevertedTransaction:
+			p.RevertedTransaction.ID = sh(p.RevertedTransaction.ID)
+			p.RevertTransaction.ID = sh(p.RevertTransaction.ID)
+			logs[i].Data = p
+		case ledger.SavedMetadata:
+			if p.TargetType == ledger.MetaTargetTypeTransaction {
+				p.TargetID = uint64(int64(p.TargetID.(uint64)) + dt)
+				logs[i].Data = p
+			}
+		case ledger.DeletedMetadata:
+			if p.TargetType == ledger.MetaTargetTypeTransaction {
+				p.TargetID = uint64(int64(p.TargetID.(uint64)) + dt)
+				logs[i].Data = p
+			}
+		}
+	}
+	return logs
 }
 
 func sliceLogs(logs []ledger.Log, drop, take int) []ledger.Log {
@@ -413,6 +493,8 @@ type impRun struct {
 	SnapA     Snap
 	Viol      []string // monitor messages
 	Partial   int
+	RefReuse  int
+	Data      []byte
 	DiffStats []string
 }
 
@@ -433,6 +515,7 @@ func runImpCase(c impCase, gen func(*impStack) ([]Op, []impAction)) *impRun {
 	logs, err := decodeLogs(data)
 	must(err)
 	run.Exported = len(logs)
+	run.Data = data
 	run.SnapA = s.st.Snapshot(s.ctx, s.a, "l1", c.Feat)
 	return s.script(run, logs)
 }
@@ -450,9 +533,16 @@ func (s *impStack) script(run *impRun, logs []ledger.Log) *impRun {
 			continue
 		}
 		switch a.Kind {
-		case "import":
+		case "import", "import_shift":
 			before := s.st.Snapshot(s.ctx, s.b, "l2", c.Feat)
 			part := sliceLogs(logs, a.Drop, a.Take)
+			if a.Kind == "import_shift" {
+				part = shiftLogs(run.Data, a.DLog, a.DTx)
+				if a.WithOrig {
+					part = append(append([]ledger.Log{}, logs...), part...)
+				}
+			}
+			isExport := a.Kind == "import"
 			s.st.PG.Clock = pgsem.TS(a.Now)
 			err := realImport(s.ctx, s.b, part)
 			cls := importClass(err)
@@ -465,7 +555,7 @@ func (s *impStack) script(run *impRun, logs []ledger.Log) *impRun {
 			if cls == "ok" {
 				fl, diff := cmpFlags(run.SnapA, after)
 				res = L("import", "ok", fl)
-				full := a.Drop == 0 && (a.Take < 0 || a.Take >= len(logs))
+				full := isExport && a.Drop == 0 && (a.Take < 0 || a.Take >= len(logs))
 				if full && !imported && written == "" {
 					pristineFull = true
 					for _, l := range after.Logs {
@@ -482,8 +572,50 @@ func (s *impStack) script(run *impRun, logs []ledger.Log) *impRun {
 						run.Viol = append(run.Viol, "C11|copy differs from source after export/import into the pristine ledger: ["+"c11-"+d+"] "+impFirstDiff(run.SnapA, after, d))
 					}
 				}
-			} else if !imported && written == "" && a.Drop == 0 && (a.Take < 0 || a.Take >= len(logs)) {
+			} else if isExport && !imported && written == "" && a.Drop == 0 && (a.Take < 0 || a.Take >= len(logs)) {
 				run.Viol = append(run.Viol, "C11|import of the full export into the pristine ledger failed: [c11-import-failed] "+cls)
+			}
+			// C14 on the import path: the first log that was not imported reuses a stored non-empty reference (its own
+			// transaction id being free): the import must stop THERE with the reference-conflict error and without that transaction
+			if cls != "ok" && cls != "not_initializing" && cls != "log_exists" { // (refused by the state / id rules of C12: no log was replayed)
+				have := map[int64]bool{}
+				for _, l := range after.Logs {
+					have[l.ID] = true
+				}
+				for _, l := range part {
+					if have[int64(*l.ID)] {
+						continue
+					}
+					if ct, ok := l.Data.(ledger.CreatedTransaction); ok && ct.Transaction.Reference != "" {
+						refHeld, idHeld := false, false
+						for _, t := range after.Txs {
+							if t.Ref == ct.Transaction.Reference && t.ID != int64(*ct.Transaction.ID) {
+								refHeld = true
+							}
+							if t.ID == int64(*ct.Transaction.ID) {
+								idHeld = true
+							}
+						}
+						if refHeld && !idHeld {
+							run.RefReuse++
+							isRef := errors.Is(err, ledgerstore.ErrTransactionReferenceConflict{}) || errors.Is(err, ledgercontroller.ErrTransactionReferenceConflict{})
+							if !isRef {
+								run.Viol = append(run.Viol, fmt.Sprintf("C14|import of log %d (transaction %d) reuses reference %q held by another transaction: refused with %s, not with the reference-conflict error: [c14-import-reference-wrong-error]", *l.ID, *ct.Transaction.ID, ct.Transaction.Reference, clip(cls, 120)))
+							}
+						}
+					}
+					break
+				}
+			}
+			refs := map[string]int64{}
+			for _, t := range after.Txs {
+				if t.Ref == "" {
+					continue
+				}
+				if o, dup := refs[t.Ref]; dup {
+					run.Viol = append(run.Viol, fmt.Sprintf("C14|after the import transactions %d and %d share reference %q: [c14-import-duplicate-reference]", o, t.ID, t.Ref))
+				}
+				refs[t.Ref] = t.ID
 			}
 			// C12
 			minID, maxB := int64(-1), int64(-1)
@@ -498,7 +630,7 @@ func (s *impStack) script(run *impRun, logs []ledger.Log) *impRun {
 				if cls == "ok" {
 					run.Viol = append(run.Viol, fmt.Sprintf("C12|import accepted after a write was accepted through the %s path: [c12-import-after-%s-write] changed=%v", written, written, changed))
 				} else if changed {
-					run.Viol = append(run.Viol, fmt.Sprintf("C12|import rejected (%s) after a %s write but the ledger changed: [c12-rejected-with-effect]", cls, written))
+					run.Viol = append(run.Viol, fmt.Sprintf("C12|import started after a write was accepted through the %s path, changed the ledger and stopped later (%s): [c12-import-after-%s-write] changed=true", written, clip(cls, 60), written))
 				}
 			} else if len(part) > 0 && minID <= maxB {
 				if cls == "ok" {
@@ -629,6 +761,58 @@ func (r *impRun) implSx() string {
 	return L("importx", L(r.Results...), r.Final.sx())
 }
 
+// ---------------------------------------------------------------- S-11b: chart default metadata of a metadata-only account
+// A fixed scenario outside Ledger/Core.v (which has no schemas), monitor only: strict mode, schema v1 whose chart gives
+// `users:$id` the default metadata role=user; SaveAccountMetadata under v1 creates users:42 {k1:v1} (stored with the default)
+// and users:7 {role:admin} (the request overrides the default); export -> import into a fresh ledger; the accounts of the
+// copy must carry the same metadata.
+const s11bCase = "(importx_s11b)"
+
+func runS11b() (msg string) {
+	defer func() {
+		if r := recover(); r != nil {
+			msg = fmt.Sprintf("chart default metadata scenario failed: %v [c11-s11b-scenario-broken]", r)
+		}
+	}()
+	st := NewStack(StackOpts{Mode: ledgercontroller.SchemaEnforcementStrict})
+	ctx := context.Background()
+	for _, l := range []string{"l1", "l2"} {
+		must(st.Sys.CreateLedger(ctx, l, ledger.Configuration{Bucket: "_default", Features: allOn.set()}))
+	}
+	src, err := st.Sys.GetLedgerController(ctx, "l1")
+	must(err)
+	var chart ledger.ChartOfAccounts
+	must(json.Unmarshal([]byte(`{"users": {"$id": {".pattern": "^[0-9]+$", ".metadata": {"role": {"default": "user"}}}}, "world": {}}`), &chart))
+	_, _, _, err = src.InsertSchema(ctx, ledgercontroller.Parameters[ledgercontroller.InsertSchema]{Input: ledgercontroller.InsertSchema{Version: "v1", Data: ledger.SchemaData{Chart: chart}}})
+	must(err)
+	for _, am := range []struct {
+		a string
+		m metadata.Metadata
+	}{{"users:42", metadata.Metadata{"k1": "v1"}}, {"users:7", metadata.Metadata{"role": "admin"}}} {
+		st.Tick(1000000)
+		_, _, err = src.SaveAccountMetadata(ctx, ledgercontroller.Parameters[ledgercontroller.SaveAccountMetadata]{SchemaVersion: "v1",
+			Input: ledgercontroller.SaveAccountMetadata{Address: am.a, Metadata: am.m}})
+		must(err)
+	}
+	s := &impStack{st: st, ctx: ctx, feat: allOn, a: src}
+	data, err := s.export()
+	must(err)
+	logs, err := decodeLogs(data)
+	must(err)
+	cp, err := st.Sys.GetLedgerController(ctx, "l2")
+	must(err)
+	st.Tick(3600 * 1000000)
+	if err := realImport(ctx, cp, logs); err != nil {
+		return "import of a ledger with a schema and metadata-only accounts failed: [c11-import-failed] " + importClass(err)
+	}
+	a, b := st.Snapshot(ctx, src, "l1", allOn), st.Snapshot(ctx, cp, "l2", allOn)
+	pa, pb := classProj(a)["account-metadata"], classProj(b)["account-metadata"]
+	if pa != pb {
+		return fmt.Sprintf("the copy lacks the chart default metadata of an account created by a metadata-only write: [c11-import-loses-default-metadata] source %s copy %s", pa, pb)
+	}
+	return ""
+}
+
 func cmdImportx(args []string) int {
 	f := ParseFlags(args)
 	out := NewOut(f.Out)
@@ -639,6 +823,10 @@ func cmdImportx(args []string) int {
 		out.Stats["cases"]++
 		out.Stats["exported_logs"] += run.Exported
 		out.Stats["partial_imports_of_non_exports"] += run.Partial
+		out.Stats["imports_stopped_by_reference_reuse"] += run.RefReuse
+		if run.RefReuse > 0 {
+			out.Stats["distinct_nontrivial_refs"]++
+		}
 		if run.Exported >= 2 {
 			out.Stats["distinct_nontrivial"]++
 		}
@@ -647,29 +835,46 @@ func cmdImportx(args []string) int {
 			out.Violation(v[:i], cs, v[i+1:])
 		}
 	}
+	s11b := func() {
+		out.Case(s11bCase, s11bCase)
+		out.Stats["cases"]++
+		out.Stats["s11b_scenario"]++
+		if msg := runS11b(); msg != "" {
+			out.Violation("C11", s11bCase, msg)
+		}
+	}
 	if f.Replay != "" {
 		for _, line := range ReadLines(f.Replay) {
+			if strings.HasPrefix(line, "(importx_s11b") {
+				s11b()
+				continue
+			}
 			finish(runImpCase(parseImpCase(line), nil))
 		}
 		return 0
 	}
+	if f.Extra["profile"] != "refs" {
+		s11b()
+	}
 	r := NewRng(f.Seed)
 	feats := []Feat{allOn, {true, true, false, false, false}, {false, false, true, true, true}, {true, false, true, false, false}}
 	prof := HistProfile{MaxOps: 10, Backdate: true, AdversarialKV: true}
+	refsProfile := f.Extra["profile"] == "refs"
 	for i := 0; i < f.N; i++ {
 		rr := r.Fork()
 		c := impCase{Feat: feats[i%len(feats)]}
 		finish(runImpCase(c, func(s *impStack) ([]Op, []impAction) {
-			// reverts are forced: the balance check of a non-forced revert is not what this tie is about (Core.v models its
-			// nil-map dereference, DESIGN S-15, more strictly than GetBalances behaves for some multi-asset inputs)
 			var ops []Op
 			genHistory(rr, prof, c.Feat, func(o Op) OpResult {
-				if o.Kind == "revert" {
-					o.Force = true
+				if refsProfile && o.Kind == "create" && rr.Chance(70) {
+					o.Ref = Pick(rr, []string{"r1", "r2", "ref:3", "inv-7"})
 				}
 				ops = append(ops, o)
 				return s.stepA(o)
 			})
+			if refsProfile {
+				return ops, genRefScript(rr, s)
+			}
 			return ops, genScript(rr, ops)
 		}))
 	}
@@ -712,7 +917,7 @@ func genPostOps(r *Rng, n int, nTx int, now int64, path string) []Op {
 		case k < 65:
 			o.Kind = "revert"
 			o.TxID = 1 + int64(r.Intn(nTx+2))
-			o.Force = true // see the note on forced reverts in cmdImportx
+			o.Force = r.Chance(50)
 			o.AtEff = r.Chance(40)
 		case k < 75:
 			o.Kind = "setmeta"
@@ -742,6 +947,44 @@ func genPostOps(r *Rng, n int, nTx int, now int64, path string) []Op {
 		ops = append(ops, o)
 	}
 	return ops
+}
+
+// genRefScript: streams that reuse references (property C14 on the import path): the export followed by its own copy with
+// ids shifted above (two NEW_TRANSACTION logs sharing a reference in ONE stream), or the shifted copy imported on top of
+// the imported export / of an atomic bulk that holds the reference
+func genRefScript(r *Rng, s *impStack) []impAction {
+	data, err := s.export()
+	must(err)
+	logs, err := decodeLogs(data)
+	must(err)
+	var dl, dt int64
+	for _, l := range logs {
+		if int64(*l.ID) > dl {
+			dl = int64(*l.ID)
+		}
+		switch p := l.Data.(type) {
+		case ledger.CreatedTransaction:
+			if int64(*p.Transaction.ID) > dt {
+				dt = int64(*p.Transaction.ID)
+			}
+		case ledger.RevertedTransaction:
+			if int64(*p.RevertTransaction.ID) > dt {
+				dt = int64(*p.RevertTransaction.ID)
+			}
+		}
+	}
+	now := int64(1700000000)*1000000 + 3600*1000000
+	tick := func() int64 { now += 60 * 1000000; return now }
+	switch r.Intn(3) {
+	case 0:
+		return []impAction{{Kind: "import_shift", WithOrig: true, Now: tick(), DLog: dl, DTx: dt}}
+	case 1:
+		return []impAction{{Kind: "import", Drop: 0, Take: -1, Now: tick()}, {Kind: "import_shift", Now: tick(), DLog: dl, DTx: dt}}
+	default: // an atomic bulk (the ledger stays initializing) holding r1, then the export shifted above it
+		t := tick()
+		w := impAction{Kind: "write", Path: "atomic", Now: t, Ops: []Op{{Kind: "create", Post: []Posting{{"world", "bank", "USD", big.NewInt(5)}}, Ref: Pick(r, []string{"r1", "r2"}), Now: t}}}
+		return []impAction{w, {Kind: "import_shift", Now: tick(), DLog: 1, DTx: 1}}
+	}
 }
 
 func genScript(r *Rng, src []Op) []impAction {
